@@ -46,7 +46,25 @@ SHAPES = {
     "C5": (5, [(0, 1), (1, 2), (2, 3), (3, 4), (0, 4)]),
     "D": (4, [(0, 1), (1, 2), (2, 3), (0, 3), (0, 2)]),
     "P3": (3, [(0, 1), (1, 2)]),
+    # six-vertex chorded motifs: the smallest size at which vertex sets with equal degree sequences stop being isomorphic
+    "H6": (6, [(0, 1), (1, 2), (2, 3), (3, 4), (4, 5), (0, 5)]),
+    "H6a": (6, [(0, 1), (1, 2), (2, 3), (3, 4), (4, 5), (0, 5), (2, 4), (2, 5)]),
+    "H6b": (6, [(0, 1), (1, 2), (2, 3), (3, 4), (4, 5), (0, 5), (0, 3), (2, 4), (2, 5)]),
+    "H6c": (6, [(0, 1), (1, 2), (2, 3), (3, 4), (4, 5), (0, 5), (0, 3)]),
+    "HOUSE": (5, [(0, 1), (1, 2), (2, 3), (3, 0), (0, 4), (1, 4)]),
+    "T6": (6, [(0, 1), (1, 2), (1, 3), (3, 4), (3, 5)]),
 }
+BIG_SHAPES = ("H6", "H6a", "H6b", "H6c", "HOUSE", "T6")
+
+
+def random_shape(prng):
+    """Random connected motif on 5-6 vertices with at most 9 edges, registered under a per-scenario name."""
+    k = prng.choice((5, 6, 6))
+    es = [(prng.randrange(i), i) for i in range(1, k)]
+    extra = [(i, j) for i in range(k) for j in range(i + 1, k) if (i, j) not in es and (j, i) not in es]
+    prng.shuffle(extra)
+    es += extra[: prng.randrange(0, 10 - len(es))]
+    return k, es
 
 
 def gen_ring(prng, big):
@@ -88,7 +106,12 @@ def gen_network(prng, big):
     member = {}      # vertex -> set of motif indexes
     for k in range(nm):
         shape = prng.choice(("K2", "K2", "K3", "K3", "K4", "C4", "C5", "D", "P3"))
-        size, _ = SHAPES[shape]
+        r = prng.random()
+        if r < 0.10:
+            shape = prng.choice(BIG_SHAPES)
+        elif r < 0.16:
+            shape = random_shape(prng)
+        size = shape[0] if isinstance(shape, tuple) else SHAPES[shape][0]
         reuse = []
         if motifs:
             want = prng.choice((1, 1, 1, 2)) if k >= 2 else 1
@@ -117,7 +140,8 @@ def finish_network(prng, n, motifs):
     out = []
     for uid, (shape, verts) in enumerate(motifs):
         vs = [perm[v] for v in verts]
-        es = [[vs[a], vs[b]] if prng.random() < 0.5 else [vs[b], vs[a]] for a, b in SHAPES[shape][1]]
+        template = shape[1] if isinstance(shape, tuple) else SHAPES[shape][1]
+        es = [[vs[a], vs[b]] if prng.random() < 0.5 else [vs[b], vs[a]] for a, b in template]
         prng.shuffle(es)
         out.append({"key": str(len(vs)), "verts": vs, "edges": es, "uid": uid * prng.choice((1, 1, 3)) + prng.choice((0, 0, 10))})
     uids = [m["uid"] for m in out]
